@@ -20,6 +20,20 @@
 #include <xalanc/XalanTransformer/XalanParsedSource.hpp>
 #include <xalanc/XalanTransformer/XalanTransformer.hpp>
 #include <xercesc/sax/AttributeList.hpp>
+#include <xalanc/XalanSourceTree/XalanSourceTreeDOMSupport.hpp>
+#include <xalanc/XalanSourceTree/XalanSourceTreeParserLiaison.hpp>
+#include <xalanc/XPath/XObjectFactoryDefault.hpp>
+#include <xalanc/XPath/XPathFactoryDefault.hpp>
+#include <xalanc/XPath/XPathFactoryBlock.hpp>
+#include <xalanc/XSLT/XSLTEngineImpl.hpp>
+#include <xalanc/XSLT/XSLTProcessorEnvSupportDefault.hpp>
+#include <xalanc/XSLT/StylesheetConstructionContextDefault.hpp>
+#include <xalanc/XSLT/StylesheetExecutionContextDefault.hpp>
+#include <xalanc/XSLT/StylesheetRoot.hpp>
+#include <xalanc/XSLT/ProblemListener.hpp>
+#include <xalanc/XMLSupport/FormatterToXML.hpp>
+#include <xalanc/PlatformSupport/XalanOutputStreamPrintWriter.hpp>
+#include <xalanc/PlatformSupport/XalanStdOutputStream.hpp>
 
 using namespace xv;
 
@@ -67,6 +81,75 @@ struct Recorder : public FormatterListener {
     std::string treeJson() const { std::string o = "["; for (size_t i = 0; i < root.kids.size(); ++i) { if (i) o += ","; json(root.kids[i], o); } return o + "]"; }
 };
 
+// ---- the XSLT processor driven through its own interface, REUSED after a transformation that failed ------------------------
+// (XalanTransformer makes a new XSLTEngineImpl for every transformation; the processor interface documents reset() for reuse.)
+// One engine and one execution context: the stylesheet `poison` is run first on the case's source - it ends with
+// xsl:message terminate="yes" while result elements with namespace declarations are open -, then reset(), then the case itself
+// twice (recorded events, serialised bytes) exactly as in the XalanTransformer mode.
+struct SilentProblems : public ProblemListener {
+    void setPrintWriter(PrintWriter*) override {}
+    void problem(eSource, eClassification, const XalanDOMString&, const Locator*, const XalanNode*) override {}
+    void problem(eSource, eClassification, const XalanNode*, const ElemTemplateElement*, const XalanDOMString&, const XalanDOMChar*, XalanFileLoc, XalanFileLoc) override {}
+    void problem(eSource, eClassification, const XalanDOMString&, const XalanNode*) override {}
+};
+
+static void engineCase(const J& c, Recorder& rec, std::ostringstream& xml, int& status, int& status2, std::string& msg, std::string& phase, bool& poisoned) {
+    MemoryManager& mm = XalanMemMgrs::getDefaultXercesMemMgr();
+    const std::string dir = c.str("dir");
+    XalanSourceTreeDOMSupport domSupport;
+    XalanSourceTreeParserLiaison liaison(domSupport, mm);
+    domSupport.setParserLiaison(&liaison);
+    XSLTProcessorEnvSupportDefault envSupport(mm);
+    XObjectFactoryDefault xobjectFactory(mm);
+    XPathFactoryDefault xpathFactory(mm);
+    XSLTEngineImpl processor(mm, liaison, envSupport, domSupport, xobjectFactory, xpathFactory);
+    envSupport.setProcessor(&processor);
+    SilentProblems problems;
+    processor.setProblemListener(&problems);
+    XPathFactoryBlock stylesheetXPathFactory(mm);
+    StylesheetConstructionContextDefault cctx(mm, processor, stylesheetXPathFactory);
+    StylesheetExecutionContextDefault ectx(mm, processor, envSupport, domSupport, xobjectFactory);
+    liaison.setExecutionContext(ectx);
+    const std::string xmlPath = dir + "/" + c.str("xml", "in.xml"), xslPath = dir + "/" + c.str("xsl", "main.xsl");
+    phase = "poison";
+    {
+        const StylesheetRoot* ps = processor.processStylesheet(XalanDOMString(c.str("poison").c_str()), cctx);
+        if (ps != 0) {
+            ectx.setStylesheetRoot(ps);
+            XalanDocument* doc = liaison.parseXMLStream(XSLTInputSource(xmlPath.c_str()));
+            Recorder waste;
+            XSLTResultTarget target(waste);
+            XSLTInputSource src(doc);
+            try { processor.process(src, target, ectx); } catch (const XSLException&) { poisoned = true; } catch (...) { poisoned = true; }
+        }
+    }
+    // the documented way to use the objects again
+    ectx.reset();
+    processor.reset();
+    phase = "compile";
+    const StylesheetRoot* ss = processor.processStylesheet(XalanDOMString(xslPath.c_str()), cctx);
+    if (ss == 0) { status = -2; msg = "stylesheet did not compile"; return; }
+    XalanDocument* doc = liaison.parseXMLStream(XSLTInputSource(xmlPath.c_str()));
+    phase = "transform";
+    {
+        ectx.setStylesheetRoot(ss);
+        XSLTResultTarget target(rec);
+        XSLTInputSource src(doc);
+        processor.process(src, target, ectx);
+        status = 0;
+    }
+    ectx.reset();
+    processor.reset();
+    phase = "serialize";
+    {
+        ectx.setStylesheetRoot(ss);
+        XSLTResultTarget target(xml);
+        XSLTInputSource src(doc);
+        processor.process(src, target, ectx);
+        status2 = 0;
+    }
+}
+
 int main(int argc, char** argv) {
     if (argc < 2) { fprintf(stderr, "usage: %s cases.ndjson\n", argv[0]); return 2; }
     Platform platform;
@@ -90,7 +173,13 @@ int main(int argc, char** argv) {
             std::ostringstream xml; int status2 = -1;
             int status = 0; std::string msg; std::string phase = "parse";
             const XalanParsedSource* src = nullptr; const XalanCompiledStylesheet* ss = nullptr;
+            bool poisoned = false;
             try {
+                if (c.boolean("engine")) {
+                    status = -1;
+                    engineCase(c, rec, xml, status, status2, msg, phase, poisoned);
+                    if (!poisoned) { status = -103; msg = "the poisoning transformation did not fail"; }
+                } else {
                 const std::string xmlPath = dir + "/" + c.str("xml", "in.xml"), xslPath = dir + "/" + c.str("xsl", "main.xsl");
                 status = xt->parseSource(XSLTInputSource(xmlPath.c_str()), src, c.boolean("xercesdom"));
                 if (status == 0) {
@@ -112,6 +201,7 @@ int main(int argc, char** argv) {
                     xt->clearStylesheetParams();
                 }
                 if (status != 0) msg = xt->getLastError();
+                }
             } catch (const XSLException& e) { status = -100; msg = excMessage(e);
             } catch (const std::exception& e) { status = -101; msg = std::string("std::exception ") + e.what();
             } catch (...) { status = -102; msg = "unknown exception"; }
